@@ -237,10 +237,14 @@ def generate(seed, tier):
         elif k == "sync_short":
             ops.append({"op": "sync_short", "nslots": rng.choice([32, 64]), "sps": rng.choice([2, 8]),
                         "cut": rng.choice([1, 2, 100]), "form": rng.choice(["es", "arr"])})
+        if ops and isinstance(ops[-1].get("chs"), list) and k != "rewrite":
+            ops[-1]["chf"] = rng.choice(["list", "list", "tuple", "arr", "arr", "arr_i32"])
     return {}, ops
 
 
 def simplify_op(op):
+    if op.get("chf") not in (None, "list"):
+        yield dict(op, chf="list")
     if op.get("op") in ("set_data", "get_data") and op["n"] > 1:
         for n in (1, 1024, 1025, op["n"] // 2):
             if n < op["n"]:
@@ -262,6 +266,16 @@ def simplify_op(op):
 # ----------------------------------------------------------------------------
 # machine
 # ----------------------------------------------------------------------------
+def _C(op):
+    """The channel selection object handed to the driver: lists may travel as tuple / integer ndarray."""
+    chs, f = op.get("chs"), op.get("chf", "list")
+    if not isinstance(chs, list) or f == "list":
+        return chs
+    if f == "tuple":
+        return tuple(chs)
+    return np.array(chs, dtype=np.int32 if f == "arr_i32" else np.int64)
+
+
 def _clip_channels(chs):
     if chs is None:
         return [1, 2, 3, 4], False
@@ -414,19 +428,19 @@ class Bench:
 
     def op_set_patt_len(self, op):
         return self._setter("set_patt_len", "leng", op, *LIMITS["patt_len"], lambda x: 0,
-                            lambda: self.ppg.set_patt_len(op["v"], op["chs"]))
+                            lambda: self.ppg.set_patt_len(op["v"], _C(op)))
 
     def op_set_output_voltage(self, op):
         return self._setter("set_output_voltage", "volt", op, *LIMITS["amplitude"], lambda x: 0.0500001,
-                            lambda: self.ppg.set_output_voltage(op["v"], op["chs"]))
+                            lambda: self.ppg.set_output_voltage(op["v"], _C(op)))
 
     def op_set_offset(self, op):
         return self._setter("set_offset", "offs", op, *LIMITS["offset"], lambda x: 0.0500001,
-                            lambda: self.ppg.set_offset(op["v"], op["chs"]))
+                            lambda: self.ppg.set_offset(op["v"], _C(op)))
 
     def op_set_skew(self, op):
         return self._setter("set_skew", "skew", op, *LIMITS["skew"], lambda x: 1e-9 * abs(x) + 1e-24,
-                            lambda: self.ppg.set_skew(op["v"], op["chs"]))
+                            lambda: self.ppg.set_skew(op["v"], _C(op)))
 
     def op_set_prbs_order(self, op):
         v, chs = op["v"], op["chs"]
@@ -435,7 +449,7 @@ class Bench:
         orders = LIMITS["prbs_orders"]
         oor = [x not in orders for x in vals]
         what = f"set_prbs_order({v!r}, CHs={chs!r})"
-        res, exc, warns, new, fired = self._drive(what, lambda: self.ppg.set_prbs_order(v, chs))
+        res, exc, warns, new, fired = self._drive(what, lambda: self.ppg.set_prbs_order(v, _C(op)))
         if fired:
             self._sig("plen", "oor" if any(oor) else "in", fired)
             return "fault"
@@ -472,14 +486,14 @@ class Bench:
         return f"{'ok' if exc is None else type(exc).__name__}:{len(new)}"
 
     def op_set_bits_shift(self, op):
-        return self._plain("set_bits_shift", "bsh", lambda: self.ppg.set_bits_shift(op["v"], op["chs"]), op)
+        return self._plain("set_bits_shift", "bsh", lambda: self.ppg.set_bits_shift(op["v"], _C(op)), op)
 
     def op_set_mode(self, op):
-        return self._plain("set_mode", "type", lambda: self.ppg.set_mode(op["v"], op["chs"]), op)
+        return self._plain("set_mode", "type", lambda: self.ppg.set_mode(op["v"], _C(op)), op)
 
     def op_outputs(self, op):
         f = self.ppg.enable_outputs if op["on"] else self.ppg.disable_outputs
-        return self._plain("outputs", "outp", lambda: f(op["chs"]), op)
+        return self._plain("outputs", "outp", lambda: f(_C(op)), op)
 
     def op_reset(self, op):
         return self._plain("reset", "rst", lambda: self.ppg.reset(), op)
@@ -489,7 +503,7 @@ class Bench:
             return "skip-dry"
         w = op["what"]
         f = getattr(self.ppg, "get_" + w)
-        return self._plain("get_" + w, w + "?", (lambda: f()) if w == "freq" else (lambda: f(op["chs"])), op)
+        return self._plain("get_" + w, w + "?", (lambda: f()) if w == "freq" else (lambda: f(_C(op))), op)
 
     def op_badtype(self, op):
         w = op["what"]
@@ -512,7 +526,7 @@ class Bench:
         if "data_n" in kw:
             n = kw.pop("data_n")
             kw["data"] = np.random.RandomState(kw.pop("data_seed")).randint(0, 2, n).astype(np.uint8)
-        kw["CHs"] = op["chs"]
+        kw["CHs"] = _C(op)
         f = self.ppg if op["via"] == "call" else self.ppg.config
         res, exc, warns, new, fired = self._drive(f"ppg({ {k: (v if k != 'data' else '...') for k, v in kw.items()} })",
                                                   lambda: f(**kw))
@@ -551,7 +565,7 @@ class Bench:
         arg, per_ch = self._bits(op, len(sel))
         guard = arg.copy() if isinstance(arg, np.ndarray) else None
         what = f"set_data({n} bits as {op['form']}, start={start}, CHs={chs!r})"
-        res, exc, warns, new, fired = self._drive(what, lambda: self.ppg.set_data(arg, start, chs))
+        res, exc, warns, new, fired = self._drive(what, lambda: self.ppg.set_data(arg, start, _C(op)))
         if guard is not None and not np.array_equal(guard, arg):
             raise Violation("C20/blocks", f"{what}: the caller's data array was modified", "blocks/mutate")
         if fired:
@@ -609,9 +623,10 @@ class Bench:
             out += "|" + self._get_data(fits, start, chs, what + " -> get_data", expect=per_ch[:, :fits], sel=sel)
         return out
 
-    def _get_data(self, n, start, chs, what, expect=None, sel=None, clamp=None):
+    def _get_data(self, n, start, chs, what, expect=None, sel=None, clamp=None, cobj=None):
         sel = sel or _clip_channels(chs)[0]
-        res, exc, warns, new, fired = self._drive(what, lambda: self.ppg.get_data(n, start, chs))
+        carg = chs if cobj is None else cobj
+        res, exc, warns, new, fired = self._drive(what, lambda: self.ppg.get_data(n, start, carg))
         if fired:
             self._sig("data?", "r", fired)
             return f"{'ok' if exc is None else type(exc).__name__}:{','.join(fired)}"
@@ -662,7 +677,8 @@ class Bench:
             if n > 20000:           # keep the read small: move the window to the end of the memory
                 start = MEM - 3000
                 n = 3001 + 7
-        return self._get_data(n, start, op["chs"], f"get_data({n}, start={start}, CHs={op['chs']!r})", clamp=clamp)
+        return self._get_data(n, start, op["chs"], f"get_data({n}, start={start}, CHs={op['chs']!r})", clamp=clamp,
+                              cobj=_C(op))
 
     # -- SYNC ----------------------------------------------------------------------------------------------------
     def _pattern(self, seed, nsl):
